@@ -323,6 +323,19 @@ def hasRecursion (prog : Prog) : Bool :=
   let closure := step (step (step (step init)))
   closure.any fun p => p.1 == p.2
 
+/-- hypothesis `NoTemplateAlternation` (C15/D24c): no template literal with a union hole -/
+def noTemplateAlternation (prog : Prog) : Bool :=
+  !anyInProg (fun t => match t with
+    | .tpl items => items.any (fun i => match i with | .oneOf _ => true | _ => false)
+    | _ => false) prog
+
+/-- hypothesis `NoMixedIndexObject` (C15/D43): no object type with declared properties AND an index signature
+(incl. `Record<"a" | string, T>`-like keys) — describe() prints those as a mapped-type member next to properties -/
+def noMixedIndexObject (prog : Prog) : Bool :=
+  !anyInProg (fun t => match t with
+    | .obj (_ :: _) (some _) => true
+    | _ => false) prog
+
 def namingRewrites : List String := ["intro-alias", "inline-alias", "rename", "wrap-id", "iface-alias"]
 
 end Spec
